@@ -24,10 +24,11 @@ ROOT = os.path.dirname(os.path.dirname(os.path.abspath(__file__)))
 PY = '/venv/bin/python' if os.path.exists('/venv/bin/python') else sys.executable
 
 
-def _env():
+def _env(seed=0):
     env = dict(os.environ)
     env.setdefault('PANE_REPO', '/repo')
-    env['PYTHONHASHSEED'] = '0'
+    # str hashes (hence set / frozenset iteration order inside pane and the harness) vary with the seed too
+    env['PYTHONHASHSEED'] = str(int(seed) % 4294967295)
     env['PYTHONDONTWRITEBYTECODE'] = '1'
     env['PYTHONPATH'] = ROOT
     return env
@@ -36,7 +37,7 @@ def _env():
 def _run_one(prop, tier, seed, shard, nshards, budget, tmpdir, timeout, extra_env):
     out = os.path.join(tmpdir, f"shard{shard}.json")
     cmd = [PY, '-B', '-m', 'pv.shard', prop, tier, str(seed), str(shard), str(nshards), str(budget), out]
-    env = _env()
+    env = _env(seed)
     env.update(extra_env or {})
     t0 = time.time()
     try:
